@@ -13,14 +13,15 @@ def enumerate_cases(module, cfg, timeout=900, env=None):
     return r.printed("CASE"), r
 
 
-def execute(binp, cases, sd, name, timeout=900, extra_args=()):
+def execute(binp, cases, sd, name, timeout=900, extra_args=(), env=None):
     cp = os.path.join(sd, name + ".cases.ndjson")
     tp = os.path.join(sd, name + ".trace.ndjson")
     vlib.write_ndjson(cp, cases)
+    e = dict(os.environ, **env) if env else None
     if isinstance(binp, (list, tuple)):
-        vlib.run(list(binp) + [cp, tp] + list(extra_args), timeout=timeout)
+        vlib.run(list(binp) + [cp, tp] + list(extra_args), timeout=timeout, env=e)
     else:
-        vlib.run([binp, cp, tp] + list(extra_args), timeout=timeout)
+        vlib.run([binp, cp, tp] + list(extra_args), timeout=timeout, env=e)
     if not os.path.exists(tp + ".ok"):
         raise vlib.FrameworkError("harness did not finish: " + name)
     return tp
